@@ -130,8 +130,8 @@ func checkSlice(p *Prog, r *Report, f *bpFn, fk string, pt point, x *ssa.Slice, 
 	if x.High != nil {
 		hiT, hiO = f.intTerm(x.High)
 	}
-	ok1 := f.prove(pt, goal{zeroT, lowT, lowO}, nil, 0)               // 0 <= low
-	ok2 := f.prove(pt, goal{lowT, hiT, hiO - lowO}, nil, 0)           // low <= high
+	ok1 := f.prove(pt, goal{zeroT, lowT, lowO}, nil, 0)                  // 0 <= low
+	ok2 := f.prove(pt, goal{lowT, hiT, hiO - lowO}, nil, 0)              // low <= high
 	ok3 := x.High == nil || f.prove(pt, goal{hiT, lt, lo - hiO}, nil, 0) // high <= len
 	if ok1 && ok2 && ok3 {
 		r.Ok("R-PANIC-BOUNDS", key, pos, "0 <= low <= high <= len proven")
